@@ -24,7 +24,7 @@ package parser
 //@     && (a.Accrual.Range.Start != a.Accrual.Range.End ==> within(a.Accrual.Range, a.Range) && okAccrual(a.Accrual))
 //@ def okTransaction(t directives.Transaction) bool := within(t.Date.Range, t.Range) && within(t.Description.Range, t.Range) && okQuoted(t.Description)
 //@     && (forall i int :: {t.Bookings[i].Range.Start} 0 <= i && i < len(t.Bookings) ==> within(t.Bookings[i].Range, t.Range) && okBooking(t.Bookings[i]))
-//@     && (t.Addons.Range.Start != t.Addons.Range.End ==> within(t.Addons.Range, t.Range) && okAddons(t.Addons))
+//@     && (t.Addons.Range.Start != t.Addons.Range.End ==> within(t.Addons.Range, t.Range)) && okAddons(t.Addons)
 //@ def okOpen(o directives.Open) bool := within(o.Date.Range, o.Range) && within(o.Account.Range, o.Range)
 //@ def okClose(o directives.Close) bool := within(o.Date.Range, o.Range) && within(o.Account.Range, o.Range)
 //@ def okAssertion(x directives.Assertion) bool := within(x.Date.Range, x.Range)
@@ -193,7 +193,7 @@ package parser
 //
 //@ func (*Parser).parseTransaction
 //@   requires wf(p.Scanner) && scopeOf(s, p) && before(date.Range, s, p)
-//@   requires addons.Range.Start != addons.Range.End ==> before(addons.Range, s, p) && okAddons(addons)
+//@   requires okAddons(addons) && (addons.Range.Start != addons.Range.End ==> before(addons.Range, s, p))
 //@   modifies p.offset, p.current, p.currentLen
 //@   ensures wf(p.Scanner) && p.offset >= old(p.offset)
 //@   ensures errIn(result.1, p.Scanner)
